@@ -1064,6 +1064,7 @@ def run(ctx):
                 'branch_from, raise site) among jobs that end past the existence test; in worlds with q/* branches '
                 'every existing destination branch is additionally deleted' % (len(chosen), per_world))
     grammar_probe(ctx)
+    stale_cache(ctx)
     scens = corpus()
     ctx.count('corpus_scenarios', len(scens))
     mp = get_context('fork')
@@ -1078,7 +1079,41 @@ def run(ctx):
     ctx.extra['slowest_world_s'] = round(max(r['wall'] for r in results), 1)
 
 
+def stale_cache_histories(ks):
+    """A destination branch is archived by a delete-branch job (the robot's mirror cache, refreshed at the start of
+    that job, still holds it), then a queue delete / rebuild job runs while one of its first git commands - the
+    refresh of the cache among them - fails once.  Whatever the job answers, it may only touch q/* branches."""
+    cfg = {'layout': LAYOUTS['stab'], 'use_queue': True, 'skip_queue': False, 'no_octopus': False, 'peers': 0,
+           'leaders': 0, 'need_author': False, 'build_key': 'pre-merge', 'always_prs': True, 'always_branches': True,
+           'cmd_line_options': []}
+    src = 'bugfix/TEST-1'
+    pre = [{'e': 'create_pr', 'src': src, 'dst': 'development/5.1', 'label': 'c1'}, {'e': 'job_pr', 'pr': 1},
+           {'e': 'build', 'ref': src, 'state': 'SUCCESSFUL'}, {'e': 'build', 'ref': 'w/10.0/' + src, 'state': 'SUCCESSFUL'},
+           {'e': 'job_pr', 'pr': 1}]
+    out = []
+    for victim in ('stabilization/5.1.4', 'stabilization/4.3.18'):
+        for kind in ('delete_queues', 'rebuild_queues'):
+            for k in ks:
+                out.append({'cfg': cfg, 'family': 'c20-stale-cache', 'events': pre + [
+                    {'e': 'job_api', 'kind': 'delete_branch', 'args': {'branch': victim}},
+                    {'e': 'job_api', 'kind': kind, 'fault': {'mode': 'git_fail', 'cmd_index': k}},
+                    {'e': 'job_api', 'kind': kind}]})
+    return out
+
+
+def stale_cache(ctx):
+    from lib import sysrun
+    hs = stale_cache_histories(range(0, 3) if ctx.quick else range(0, 12))
+    ctx.count('stale_cache_histories', len(hs))
+    sysrun.run(ctx, [], 0, ['mon_c20_queue_jobs'], do_corr=False, replay_history=hs)
+
+
 def replay(ctx, data):
+    if isinstance(data.get('input'), dict) and isinstance(data['input'].get('history'), dict) \
+            and data['input']['history'].get('family') == 'c20-stale-cache':
+        from lib import sysrun
+        sysrun.run(ctx, [0], 0, ['mon_c20_queue_jobs'], do_corr=False, replay_history=data['input']['history'])
+        return
     inp = data['input']
     scen = {'world': inp.get('world', 'replay'), 'cfg': inp['cfg'], 'setup': inp['setup'],
             'request': inp['request'], 'fault': inp.get('fault')}
